@@ -216,6 +216,17 @@ def _run_history(case, vseed):
                 # (with tied sample numbers -- outside C07's quantifier -- the stable sort keeps the order handed in)
                 po = r.get("prev_order", "returned") if _valid_cards(case) else "returned"
                 parg = list(prev) if po == "returned" else (sorted(prev) if po == "index" else list(prev)[::-1])
+            if r.get("failed_first") and all(nsz >= 1 for nsz in r["sizes"]):
+                # an impossible request first (one contest asked for more cards than list it: IndexError), then the
+                # documented recovery: catch, put the sizes right, call again on the same objects
+                c0 = cids[len(r["sizes"]) % len(cids)]
+                contests[c0].sample_size = sum(1 for cd in cards if c0 in cd["styles"]) + 1
+                try:
+                    CVR.consistent_sampling(cvrs, contests, None if parg is None else list(parg))
+                except Exception:  # noqa
+                    pass
+                for c, nsz in zip(cids, r["sizes"]):
+                    contests[c].sample_size = nsz
             sel = CVR.consistent_sampling(cvrs, contests, parg)
         except Exception as e:  # noqa
             out.append({"st": "err", "err": err_kind(e), "alt": alt})
@@ -618,7 +629,8 @@ def gen_rounds(rng, n=None, ncon=None, nr=None, malformed=None):
     cards = _cards(rng, n, cids, "ties" if malformed == "ties" else None)
     paths = {c: _size_path(rng, _avail(cards, c), nr) for c in cids}
     rounds = [{"sizes": [paths[c][r] for c in cids], "cont": bool(r > 0 and rng.chance(0.5)),
-               "prev_order": rng.choice(["returned", "returned", "index", "rev"])} for r in range(nr)]
+               "prev_order": rng.choice(["returned", "returned", "index", "rev"]),
+               "failed_first": rng.chance(0.12)} for r in range(nr)]
     if malformed == "beyond":
         r = rng.randrange(nr); ci = rng.randrange(ncon)
         for rr in range(r, nr):
